@@ -20,6 +20,9 @@ use std::sync::atomic::{AtomicUsize, Ordering};
 
 use std::time::{Duration, Instant};
 
+#[cfg(kani)]
+use crate::verif_collections::{HashMap, HashSet};
+#[cfg(not(kani))]
 use std::collections::{HashMap, HashSet};
 
 use byteorder::{BigEndian, ByteOrder};
@@ -336,6 +339,143 @@ impl StunAgent {
         }
         // with nothing outstanding there is nothing to wait for: ask to be polled again in an hour
         StunAgentPollRet::WaitUntil(lowest_wait.unwrap_or(now + Duration::from_secs(3600)))
+    }
+}
+
+/// Verification hooks, compiled only under `cfg(kani)` (never set by cargo build/test).  They
+/// let a proof harness start from an arbitrary per-request state instead of replaying a call
+/// history, choose the iteration order of the outstanding-request map, and read the state back.
+#[cfg(kani)]
+#[allow(missing_docs, clippy::too_many_arguments)]
+impl StunAgent {
+    pub fn verif_insert_request(
+        &mut self,
+        transaction_id: TransactionId,
+        bytes: Vec<u8>,
+        to: SocketAddr,
+        request_had_credentials: bool,
+        timeouts_ms: Vec<u64>,
+        last_retransmit_timeout_ms: u64,
+        timeout_i: usize,
+        last_send_time: Option<Instant>,
+        send_cancelled: bool,
+        recv_cancelled: bool,
+    ) {
+        let state = StunRequestState {
+            transaction_id,
+            request_had_credentials,
+            bytes,
+            transport: self.transport,
+            from: self.local_addr,
+            to,
+            timeouts_ms,
+            last_retransmit_timeout_ms,
+            recv_cancelled,
+            send_cancelled,
+            timeout_i,
+            last_send_time,
+        };
+        self.outstanding_requests.insert(transaction_id, state);
+    }
+
+    pub fn verif_set_iteration_order(&mut self, order: [u8; 3]) {
+        self.outstanding_requests.set_iteration_order(order);
+    }
+
+    pub fn verif_set_validated_peer(&mut self, addr: SocketAddr) {
+        self.validated_peers.insert(addr);
+    }
+
+    pub fn verif_outstanding(&self) -> usize {
+        self.outstanding_requests.len()
+    }
+
+    /// (timeout_i, last_send_time, send_cancelled, recv_cancelled, number of timeouts,
+    /// last_retransmit_timeout_ms, request_had_credentials)
+    pub fn verif_request_state(
+        &self,
+        transaction_id: TransactionId,
+    ) -> Option<(usize, Option<Instant>, bool, bool, usize, u64, bool)> {
+        self.request_state(transaction_id).map(|s| {
+            (
+                s.timeout_i,
+                s.last_send_time,
+                s.send_cancelled,
+                s.recv_cancelled,
+                s.timeouts_ms.len(),
+                s.last_retransmit_timeout_ms,
+                s.request_had_credentials,
+            )
+        })
+    }
+
+    /// scalar snapshot of the request stored in slot `i` of the outstanding-request model
+    pub fn verif_slot(&self, i: usize) -> Option<VerifRequest> {
+        self.outstanding_requests.slot(i).map(|(id, s)| VerifRequest {
+            transaction_id: *id,
+            state_transaction_id: s.transaction_id,
+            timeout_i: s.timeout_i,
+            last_send_time: s.last_send_time,
+            send_cancelled: s.send_cancelled,
+            recv_cancelled: s.recv_cancelled,
+            n_timeouts: s.timeouts_ms.len(),
+            timeout0_ms: s.timeouts_ms.first().copied(),
+            timeout1_ms: s.timeouts_ms.get(1).copied(),
+            last_retransmit_timeout_ms: s.last_retransmit_timeout_ms,
+            request_had_credentials: s.request_had_credentials,
+            to: s.to,
+            from: s.from,
+            transport: s.transport,
+            bytes_len: s.bytes.len(),
+        })
+    }
+
+    pub fn verif_request_timeout_ms(&self, transaction_id: TransactionId, i: usize) -> Option<u64> {
+        self.request_state(transaction_id)
+            .and_then(|s| s.timeouts_ms.get(i).copied())
+    }
+}
+
+/// Verification-only scalar snapshot of one outstanding request (see `StunAgent::verif_slot`).
+#[cfg(kani)]
+#[allow(missing_docs)]
+#[derive(Debug, Clone, Copy, PartialEq, Eq)]
+pub struct VerifRequest {
+    pub transaction_id: TransactionId,
+    pub state_transaction_id: TransactionId,
+    pub timeout_i: usize,
+    pub last_send_time: Option<Instant>,
+    pub send_cancelled: bool,
+    pub recv_cancelled: bool,
+    pub n_timeouts: usize,
+    pub timeout0_ms: Option<u64>,
+    pub timeout1_ms: Option<u64>,
+    pub last_retransmit_timeout_ms: u64,
+    pub request_had_credentials: bool,
+    pub to: SocketAddr,
+    pub from: SocketAddr,
+    pub transport: TransportType,
+    pub bytes_len: usize,
+}
+
+#[cfg(kani)]
+impl StunRequestState {
+    /// Verification-only abstraction of [`StunRequestState::poll`], substituted for it (Kani
+    /// stubbing) in the harnesses that decide how [`StunAgent::poll`] combines several requests:
+    /// the outcome is read from `timeout_i` (0: wait until `last_send_time`, 1: transmit,
+    /// 2: timed out, anything else: cancelled) instead of being computed from the schedule.
+    fn verif_poll_abstract(&mut self, now: Instant) -> StunRequestPollRet {
+        match self.timeout_i {
+            0 => StunRequestPollRet::WaitUntil(self.last_send_time.unwrap_or(now)),
+            1 => {
+                self.last_send_time = Some(now);
+                StunRequestPollRet::SendData(
+                    send_data(self.transport, &self.bytes, self.from, self.to).into_owned(),
+                )
+            }
+            2 => StunRequestPollRet::TimedOut,
+            _ => StunRequestPollRet::Cancelled,
+        }
     }
 }
 
